@@ -130,23 +130,39 @@ def inline_helpers(tree, modname, ref_functions, log):
     """Inline calls to private helpers the reference tree does not know."""
     funcs = dict(canon._functions(tree, modname))
     new_helpers = {}
+    old_private = {}
     for q, fn in funcs.items():
-        if q in ref_functions or '<locals>' in q:
+        if '<locals>' in q:
             continue
         name = q.rsplit('.', 1)[-1]
         if not name.startswith('_') or name.startswith('__'):
             continue
-        new_helpers[q] = fn
-    if not new_helpers:
-        return
+        if q in ref_functions:
+            old_private[q] = fn
+        else:
+            new_helpers[q] = fn
+    ref_calls = canon.table().get('__calls__', {})
     for q, fn in funcs.items():
         if q not in ref_functions:
             continue
         owner = q.rsplit('.', 1)[0]          # module or module.Class
+        # helpers to inline here: the new ones, and existing private helpers this function did not call in the reference tree
+        called_before = set(ref_calls.get(q, ()))
+        cand = dict(new_helpers)
+        for hq, hfn in old_private.items():
+            hname = hq.rsplit('.', 1)[-1]
+            if hname not in called_before and hq != q and (hq.rsplit('.', 1)[0] in (owner, modname)):
+                cand[hq] = hfn
+        if not cand:
+            continue
+        names = {h.rsplit('.', 1)[-1] for h in cand}
+        if not any(isinstance(c, ast.Call) and ((isinstance(c.func, ast.Attribute) and c.func.attr in names)
+                                                or (isinstance(c.func, ast.Name) and c.func.id in names)) for c in ast.walk(fn)):
+            continue
         changed = True
         rounds = 0
         while changed and rounds < 4:
-            changed = _inline_in(fn, owner, modname, new_helpers, log, q)
+            changed = _inline_in(fn, owner, modname, cand, log, q)
             rounds += 1
 
 
@@ -472,8 +488,9 @@ def apply(tree, modname):
     # cheap pre-check: only functions that have a local the reference does not know (or new helpers) are touched
     has_new_helper = any(q not in ref_functions and '<locals>' not in q and q.rsplit('.', 1)[-1].startswith('_')
                          and not q.rsplit('.', 1)[-1].startswith('__') for q, _ in funcs)
-    if has_new_helper:
-        inline_helpers(tree, modname, ref_functions, log)
+    n0 = len(log)
+    inline_helpers(tree, modname, ref_functions, log)
+    if len(log) != n0:
         funcs = canon._functions(tree, modname)
     dirty = []
     for q, fn in funcs:
@@ -506,7 +523,78 @@ def apply(tree, modname):
 
 def canonical_shapes(tree, modname):
     """Shape canonicalisations applied to every tree (reference and current alike); not logged as refactor reversals."""
+    split_parallel_assignments(tree)
+    fold_augmented(tree)
     loops_to_comprehensions(tree, [], modname)
+
+
+def fold_augmented(tree):
+    """`x = A` ... `x op= B` in one block, x untouched in between and B's inputs not written in between -> `x = A op B`."""
+    for parent in ast.walk(tree):
+        for fld in ('body', 'orelse', 'finalbody'):
+            blk = getattr(parent, fld, None)
+            if not isinstance(blk, list):
+                continue
+            j = 0
+            while j < len(blk):
+                b = blk[j]
+                if isinstance(b, ast.AugAssign) and isinstance(b.target, ast.Name) \
+                        and not isinstance(b.op, (ast.LShift, ast.BitOr, ast.BitAnd)):
+                    x = b.target.id
+                    if not any(isinstance(n, ast.Name) and n.id == x for n in ast.walk(b.value)):
+                        i = j - 1
+                        ok = False
+                        while i >= 0:
+                            a = blk[i]
+                            if isinstance(a, ast.Assign) and len(a.targets) == 1 and isinstance(a.targets[0], ast.Name) \
+                                    and a.targets[0].id == x and isinstance(a.value, (ast.BinOp, ast.Call)):
+                                ok = True
+                                break
+                            if any(isinstance(n, ast.Name) and n.id == x for n in ast.walk(a)) \
+                                    or isinstance(a, (ast.For, ast.While, ast.If, ast.Try, ast.With, ast.Return, ast.Raise)):
+                                break
+                            i -= 1
+                        if ok:
+                            bnames = {n.id for n in ast.walk(b.value) if isinstance(n, ast.Name)}
+                            between = blk[i + 1:j]
+                            if not any(isinstance(n, ast.Name) and isinstance(n.ctx, ast.Store) and n.id in bnames
+                                       for st in between for n in ast.walk(st)):
+                                a = blk[i]
+                                new_st = ast.Assign(targets=[a.targets[0]], value=ast.BinOp(left=a.value, op=b.op, right=b.value))
+                                ast.copy_location(new_st, a)
+                                ast.fix_missing_locations(new_st)
+                                blk[i] = new_st
+                                del blk[j]
+                                continue
+                j += 1
+
+
+def split_parallel_assignments(tree):
+    """`a, b = x, y` (no target occurs in a value) -> `a = x; b = y`."""
+    for parent in ast.walk(tree):
+        for fld in ('body', 'orelse', 'finalbody'):
+            blk = getattr(parent, fld, None)
+            if not isinstance(blk, list):
+                continue
+            i = 0
+            while i < len(blk):
+                st = blk[i]
+                if isinstance(st, ast.Assign) and len(st.targets) == 1 and isinstance(st.targets[0], (ast.Tuple, ast.List)) \
+                        and isinstance(st.value, (ast.Tuple, ast.List)) and len(st.targets[0].elts) == len(st.value.elts) \
+                        and all(isinstance(t, ast.Name) for t in st.targets[0].elts) \
+                        and not any(isinstance(v, ast.Starred) for v in st.value.elts):
+                    tnames = {t.id for t in st.targets[0].elts}
+                    used = {x.id for v in st.value.elts for x in ast.walk(v) if isinstance(x, ast.Name)}
+                    if not (tnames & used):
+                        new = []
+                        for t, v in zip(st.targets[0].elts, st.value.elts):
+                            a_ = ast.Assign(targets=[t], value=v)
+                            ast.copy_location(a_, st)
+                            new.append(a_)
+                        blk[i:i + 1] = new
+                        i += len(new)
+                        continue
+                i += 1
 
 
 # ---------------------------------------------------------------------------
